@@ -48,6 +48,13 @@ class OwnFlow(FlowDeps):
     def _effects(self, expr, env):
         return
 
+    def _augassign(self, st, env):
+        # `acc += items` extends the container `acc` already is: WHO OWNS that container does not change (the items are shared
+        # element-wise, like with acc.extend(items)); whether `acc` itself is the caller's is what the sink test asks
+        if isinstance(st.target, ast.Name):
+            return
+        super()._augassign(st, env)
+
     def _roots(self, expr, env):
         if expr is None:
             return set()
